@@ -122,7 +122,7 @@ func worldHTTP(w *World) {
 		pa["hostHeaderRewrite"] = rewriteHost
 	}
 	if setReq {
-		pa["requestHeaders"] = map[string]any{"set": map[string]string{"X-From-Frp": "yes", "X-Hdr-0": "overridden"}}
+		pa["requestHeaders"] = map[string]any{"set": map[string]string{"X-From-Frp": "yes", "X-Hdr-0": "overridden", "x-hdr-1": "forced"}}
 	}
 	if setResp {
 		pa["responseHeaders"] = map[string]any{"set": map[string]string{"X-Resp-Frp": "1"}}
@@ -693,12 +693,13 @@ func (hw *httpWorld) checkCase(c *httpCase, got *rawMsg, rewriteHost string, set
 		// declared rewrite: these names are replaced by the configured values
 		var f []hdr
 		for _, h := range sent {
-			if strings.EqualFold(h.k, "X-From-Frp") || strings.EqualFold(h.k, "X-Hdr-0") {
+			// (header names are case-insensitive: a name configured in lower case replaces what the user sent just the same)
+			if strings.EqualFold(h.k, "X-From-Frp") || strings.EqualFold(h.k, "X-Hdr-0") || strings.EqualFold(h.k, "X-Hdr-1") {
 				continue
 			}
 			f = append(f, h)
 		}
-		sent = append(f, hdr{"X-From-Frp", "yes"}, hdr{"X-Hdr-0", "overridden"})
+		sent = append(f, hdr{"X-From-Frp", "yes"}, hdr{"X-Hdr-0", "overridden"}, hdr{"X-Hdr-1", "forced"})
 	}
 	a, b := endToEnd(sent, skip), endToEnd(seen.Headers, skip)
 	missing, extra := diffLines(a, b)
